@@ -1138,6 +1138,85 @@ def rule_r13(prog, res):
                             a.targets[0].slice))
 
 
+def rule_r14(prog, res):
+    res.rule('R14', 'a fault is serialized before anything is read from the '
+             'method descriptor (faults raised before a method is picked '
+             'have none); a bulk insert that handler merging relies on '
+             'appends each key after the previous one')
+    base = prog.cls('spyne.protocol._base:ProtocolMixin')
+    n = 0
+    for k in sorted(prog.subclasses(base), key=lambda c: c.name):
+        if k.name in ('Csv', '_SpyneJsonRpc1'):
+            continue        # outside the property's quantifier (see R1 notes)
+        f = k.methods.get('serialize')
+        if f is None or f.cls is not k:
+            continue
+        for a in walk_no_defs(f.node):
+            if not (isinstance(a, ast.Attribute) and a.attr == 'descriptor'
+                    and unparse(a.value) == 'ctx'):
+                continue
+            n += 1
+            ok = False
+            for e, pol in flatten_guards(guards_at(a, stop=f.node)):
+                if isinstance(e, ast.Compare) and unparse(
+                        e.left) == 'ctx.out_error' and isinstance(
+                        e.comparators[0], ast.Constant) and \
+                        e.comparators[0].value is None:
+                    if (isinstance(e.ops[0], ast.IsNot) and not pol) or (
+                            isinstance(e.ops[0], ast.Is) and pol):
+                        ok = True
+            where = '%s:%d' % (f.module.relpath, a.lineno)
+            res.ob('R14', where, '%s.serialize reads ctx.descriptor %s' % (
+                k.name, 'only when there is no fault' if ok else
+                'before the fault branch'), 'ok' if ok else 'VIOLATED')
+            if not ok:
+                res.finding('R14', '%s.serialize|descriptor-before-fault' %
+                            k.name, where, '%s.serialize reads ctx.descriptor '
+                            'on a path where ctx.out_error may be set: for a '
+                            'fault raised before a method was picked the '
+                            'descriptor is None, serialization raises '
+                            'AttributeError and method_exception_document / '
+                            'method_exception_string never fire' % k.name)
+    res.floor('R14', 'descriptor reads in serialize implementations', n, 10)
+    # bulk insert
+    oset = prog.cls('spyne.util.oset:oset')
+    users = []
+    for mod in ('spyne.service', 'spyne.evmgr'):
+        m = prog.module(mod)
+        for f in m.functions.values():
+            for c in calls_in(f.node):
+                if call_name(c) in ('extend', 'update') and isinstance(
+                        c.func, ast.Attribute) and \
+                        call_name(c) in oset.methods:
+                    users.append((f, c))
+    ext = oset.methods.get('extend')
+    hoisted = None
+    if ext is not None:
+        for lp in walk_no_defs(ext.node):
+            if isinstance(lp, ast.For):
+                links = [a for a in ast.walk(lp) if isinstance(a, ast.Assign)
+                         and any(unparse(t) == 'curr[NEXT]'
+                                 for t in a.targets)]
+                reload_ = [a for a in ast.walk(lp) if isinstance(
+                    a, ast.Assign) and any(unparse(t) == 'curr'
+                                           for t in a.targets)]
+                if links and not reload_:
+                    hoisted = lp
+    res.ob('R14', ext.where if ext else oset.where, 'oset.extend %s; '
+           'handler code calls it %d time(s)' % (
+               'links every new key after a tail read once' if hoisted
+               else 'reads the tail for each key', len(users)),
+           'VIOLATED' if hoisted and users else 'ok')
+    if hoisted and users:
+        f, c = users[0]
+        res.finding('R14', '%s|bulk-insert-loses-handlers' % f.qualname,
+                    '%s:%d' % (f.module.relpath, c.lineno), '%s merges '
+                    'handlers with oset.%s, which links every new key after '
+                    'the node that was last before the call: only the last '
+                    'inherited listener of an event stays reachable, the '
+                    'others never run' % (f.qualname, call_name(c)))
+
+
 def run(prog, res, tier):
     res.run_rule(rule_r1, prog, res, tier)
     res.run_rule(rule_r2, prog, res)
@@ -1152,6 +1231,7 @@ def run(prog, res, tier):
     res.run_rule(rule_r11, prog, res)
     res.run_rule(rule_r12, prog, res)
     res.run_rule(rule_r13, prog, res)
+    res.run_rule(rule_r14, prog, res)
 
 
 _A = 'spyne/application.py'
@@ -1164,6 +1244,38 @@ _D = 'spyne/descriptor.py'
 _O = 'spyne/util/oset.py'
 
 MUTANTS = [
+    Mutant('dict-fault-after-descriptor-read', 'R14', 'fire',
+           'spyne/protocol/dictdoc/hier.py',
+           in_func('HierDictDocument.serialize',
+                   "        if ctx.out_error is not None:\n"
+                   "            ctx.out_document = self._fault_to_doc("
+                   "ctx.out_error)\n            return\n\n"
+                   "        # get the result message\n",
+                   "        # get the result message\n"),
+           'descriptor-before-fault'),
+    Mutant('handlers-merged-with-broken-extend', 'R14', 'fire',
+           'spyne/service.py',
+           in_func('ServiceBaseMeta',
+                   "                for h in v:\n"
+                   "                    handler.add(h)\n",
+                   "                handler.extend(v)\n"),
+           'bulk-insert-loses-handlers',
+           also=[('spyne/util/oset.py',
+                  in_func('oset.extend',
+                          "        for key in keys:\n"
+                          "            if key not in self.map:\n"
+                          "                end = self.end\n"
+                          "                curr = end[PREV]\n",
+                          "        end = self.end\n"
+                          "        curr = end[PREV]\n"
+                          "        for key in keys:\n"
+                          "            if key not in self.map:\n"))]),
+    Mutant('handlers-merged-with-sound-extend', 'R14', 'twin',
+           'spyne/service.py',
+           in_func('ServiceBaseMeta',
+                   "                for h in v:\n"
+                   "                    handler.add(h)\n",
+                   "                handler.extend(v)\n"), None),
     Mutant('refusal-through-respond', 'R13', 'fire',
            'spyne/protocol/soap/soap11.py',
            in_func('Soap11.create_in_document',
